@@ -12,7 +12,9 @@
      ((A -> T), K)    => ((A -> T ; fail), K)
      (true, K)        => K
      (fail, K)        => []
-     (A -> T ; B)     => [Block l: code((A, ($CUTIF(l), T)) ; B)]   with l := ++counter
+     (A -> T ; B)     => [Block l: code((A, ($CUTIF(l), T)) ; B)]   with l := ++counter, if A has no cut of its own
+                      => [Block l: [Block m: code((A', ($CUTIF(l), T)))] ++ code(B)]   with l, m := ++counter twice,
+                         A' = A with its own cuts replaced by $CUTIF(m) (a cut in a condition is local to it)
      (A ; B)          => code(A) ++ code(B)
      true             => [yield False]
      !                => [yield True; return]
@@ -44,6 +46,23 @@ Fixpoint compile_expression (t : sterm) : expr :=
 Definition query_expr (f : str) (args : list sterm) : expr :=
   ECall (s_ "query") [EStr f; EList (map compile_expression args)].
 
+(* has_local_cut: does the body contain a cut that belongs to it (not to a nested condition or negation)? *)
+Fixpoint tcut (b:body) : bool :=
+  match b with
+  | BCut => true
+  | BAnd a b | BOr a b => tcut a || tcut b
+  | BIf c t => tcut t
+  | _ => false end.
+
+(* localize_cuts: those cuts replaced by the marker that leaves the block labelled m *)
+Fixpoint loc (m:nat) (b:body) : body :=
+  match b with
+  | BCut => BMark m
+  | BAnd a b => BAnd (loc m a) (loc m b)
+  | BOr a b => BOr (loc m a) (loc m b)
+  | BIf c t => BIf c (loc m t)
+  | _ => b end.
+
 Fixpoint comp (n:nat) (b:body) (cnt:nat) : option (list stmt * nat) :=
   match n with O => None | Datatypes.S n =>
   match b with
@@ -62,6 +81,15 @@ Fixpoint comp (n:nat) (b:body) (cnt:nat) : option (list stmt * nat) :=
     end
   | BOr (BIf c t) e =>
       let l := Datatypes.S cnt in
+      if tcut c then
+        let m := Datatypes.S l in
+        match comp n (BAnd (loc m c) (BAnd (BMark l) t)) m with
+        | Some (c1,k1) =>
+            match comp n e k1 with
+            | Some (c2,k2) => Some ([SBlock l ([SBlock m c1] ++ c2)],k2)
+            | None => None end
+        | None => None end
+      else
       match comp n (BOr (BAnd c (BAnd (BMark l) t)) e) l with
       | Some (code,k) => Some ([SBlock l code],k) | None => None end
   | BOr x y => match comp n x cnt with Some (c1,k1) =>
